@@ -989,13 +989,16 @@ def warm_up():
 
 
 def worker_main():
+    # the results travel on the process's real stdout; whatever the library prints while the items run (a Timer
+    # that was not asked for, a stray progress line) goes to stderr and cannot corrupt them
+    channel, sys.stdout = sys.stdout, sys.stderr
     warm_up()
     items = json.load(sys.stdin)
     out = [do_item(it) for it in items]
     if plt.get_fignums():
         raise common.MachineryError("figures left open in a worker")
-    sys.stdout.write(json.dumps(out, default=str))
-    sys.stdout.flush()
+    channel.write(json.dumps(out, default=str))
+    channel.flush()
 
 
 class Pool:
@@ -1027,7 +1030,10 @@ class Pool:
             if p.returncode != 0:
                 results[i] = common.MachineryError("worker failed:\n" + err[-2000:])
             else:
-                results[i] = json.loads(out)
+                try:
+                    results[i] = json.loads(out)
+                except ValueError:
+                    results[i] = common.MachineryError("worker output is not JSON:\n" + out[:500])
         ths = [threading.Thread(target=feed, args=(i, p)) for i, p in enumerate(self.procs)]
         for t in ths:
             t.start()
